@@ -61,7 +61,7 @@ func (x *Exec) bindingVal(st *State, b nameBinding) (Val, bool) {
 	res := Val{T: t, Typ: ct}
 	if st.meta != nil {
 		if m, ok := st.meta[lvKey(l)]; ok {
-			res.Clo, res.World, res.Dyn, res.Fn, res.LV = m.Clo, m.World, m.Dyn, m.Fn, m.LV
+			res.Clo, res.World, res.Dyn, res.Fn, res.LV, res.Commit = m.Clo, m.World, m.Dyn, m.Fn, m.LV, m.Commit
 		}
 	}
 	return res, true
@@ -137,7 +137,58 @@ func (x *Exec) lookupIdent(st *State, fr *Frame, name string, sc *scope) (Val, e
 			}
 		}
 	}
+	// A local that exists in the function but is not bound on this path (e.g. an early return before
+	// its declaration): an arbitrary value of its type. Sound for obligations — an unconstrained value
+	// can only make a goal harder to prove — and lets `err == nil ==> ...` clauses be stated once.
+	if fr != nil && st != nil {
+		if t, isAddr := localType(fr.fn, name); t != nil {
+			key := "unboundlocal:" + name
+			if v, ok := sc.extra[key]; ok {
+				return v, nil
+			}
+			var v Val
+			if isAddr {
+				pv := x.freshVal(st, "unbound."+name, types.NewPointer(t))
+				tt, ct, err := x.loadLV(x.heapFor(st, sc), x.lvalOf(pv))
+				if err != nil {
+					return Val{}, fmt.Errorf("unknown identifier %q", name)
+				}
+				v = Val{T: tt, Typ: ct}
+				if _, isStruct := t.Underlying().(*types.Struct); isStruct {
+					v = pv // struct locals are used through their address (cp.field)
+				}
+			} else {
+				v = x.freshVal(st, "unbound."+name, t)
+			}
+			sc.extra[key] = v
+			return v, nil
+		}
+	}
 	return Val{}, fmt.Errorf("unknown identifier %q", name)
+}
+
+// localType finds the type of a source-level local by its name (from debug refs / allocs).
+func localType(fn *ssa.Function, name string) (types.Type, bool) {
+	for _, b := range fn.Blocks {
+		for _, in := range b.Instrs {
+			switch in := in.(type) {
+			case *ssa.DebugRef:
+				if debugName(in) == name {
+					if in.IsAddr {
+						if p, ok := in.X.Type().Underlying().(*types.Pointer); ok {
+							return p.Elem(), true
+						}
+					}
+					return in.X.Type(), false
+				}
+			case *ssa.Alloc:
+				if in.Comment == name {
+					return in.Type().Underlying().(*types.Pointer).Elem(), true
+				}
+			}
+		}
+	}
+	return nil, false
 }
 
 func (x *Exec) bindingValDeref(st *State, sc *scope, v Val) (Val, error) {
@@ -570,6 +621,9 @@ func (x *Exec) evalCall(st *State, fr *Frame, e ECall, sc *scope) (Val, error) {
 			ts = append(ts, t)
 		}
 		return Val{T: App(sf.res, sf.smtName, ts...)}, nil
+	}
+	if v, ok := x.specPure(st, e.Fun, args); ok {
+		return v, nil
 	}
 	return Val{}, fmt.Errorf("unknown spec function %s", e.Fun)
 }
